@@ -1,6 +1,7 @@
 package props
 
 import (
+	"context"
 	"fmt"
 	"hash/fnv"
 	"reflect"
@@ -255,14 +256,14 @@ func init() {
 	engine.Register(&engine.Prop{
 		ID: "C13",
 		Shards: func(th bool) []string {
-			s := []string{"paths", "cross", "env"}
+			s := []string{"paths", "cross", "ctors", "env"}
 			for i := 0; i < c13NOps(); i++ {
 				s = append(s, fmt.Sprintf("hist:cold:%d", i), fmt.Sprintf("hist:warm:%d", i))
 			}
 			return s
 		},
 		Run:  c13Run,
-		Rule: "programs: a 35-template corpus covering every construct + a family of hash literals (1..4 entries, identifier/string/duplicate keys, side-effecting values), map loops, data maps, method calls on receivers of two dynamic types, a time value printed with and without a TIME_FORMAT in the context, a template that renders itself as a partial and fails inside a helper block of the inner execution, empty array/hash literals that are kept and written to, failing templates and templates that do not parse. (paths) every program x 2 data sets: fresh parse, 3 repeated executions of one parsed template, Clone, cache cold, cache warm, cache off again — all (out, err, side-effect log) equal; deep structural hash (reflection over every field, cycle-safe) of the parsed program equal before and after every execution. (cross) every probe template (contentOf of every block name the corpus defines, unknown variables / functions, a time, a partial, a regexp match) renders the same before and after every corpus program was executed with fresh contexts, cache off and on - also for a probe that was parsed before and stays alive (its program hash, its executions and its Clone are unchanged by the other template's parse); (paths, cache) a text differing only in surrounding whitespace is another template: from the warm cache it renders what a fresh parse of it renders. (env) every map-iteration call made during an execution is an environment choice point (runtime overlay): all single deviations (two in thorough) from the default order give the same (out, err, log); for-over-map output is compared as a multiset. (hist) explicit enumeration of histories over {fresh parse+exec, exec of a long-lived template, Clone+exec, Render through the cache, toggle CacheEnabled, CacheSet} x 6 templates (a partial whose feeder text depends on the context, ok with an empty hash literal that is written to, failing inside a block on line 3, failing at top level, method call, one that does not parse) x 2 data sets, from a cold and a warm cache; after every operation the result equals the pristine reference for (text, data), every live template's program hash is unchanged and a cached template was parsed from its key. Non-trivial: histories with >=2 operations / programs with a map or side effect.",
+		Rule: "programs: a 35-template corpus covering every construct + a family of hash literals (1..4 entries, identifier/string/duplicate keys, side-effecting values), map loops, data maps, method calls on receivers of two dynamic types, a time value printed with and without a TIME_FORMAT in the context, a template that renders itself as a partial and fails inside a helper block of the inner execution, empty array/hash literals that are kept and written to, failing templates and templates that do not parse. (paths) every program x 2 data sets: fresh parse, 3 repeated executions of one parsed template, Clone, cache cold, cache warm, cache off again — all (out, err, side-effect log) equal; deep structural hash (reflection over every field, cycle-safe) of the parsed program equal before and after every execution. (cross) every probe template (contentOf of every block name the corpus defines, unknown variables / functions, a time, a partial, a regexp match) renders the same before and after every corpus program was executed with fresh contexts, cache off and on - also for a probe that was parsed before and stays alive (its program hash, its executions and its Clone are unchanged by the other template's parse); (paths, cache) a text differing only in surrounding whitespace is another template: from the warm cache it renders what a fresh parse of it renders. (ctors) top-level bindings made by an execution whose context came from any of 6 constructors (and BuffaloRenderer with nil data) are invisible to later executions in fresh contexts from all 6; every history of <=4 calls of pluralize / singularize over 4 words gives each call one result. (env) every map-iteration call made during an execution is an environment choice point (runtime overlay): all single deviations (two in thorough) from the default order give the same (out, err, log); for-over-map output is compared as a multiset. (hist) explicit enumeration of histories over {fresh parse+exec, exec of a long-lived template, Clone+exec, Render through the cache, toggle CacheEnabled, CacheSet} x 6 templates (a partial whose feeder text depends on the context, ok with an empty hash literal that is written to, failing inside a block on line 3, failing at top level, method call, one that does not parse) x 2 data sets, from a cold and a warm cache; after every operation the result equals the pristine reference for (text, data), every live template's program hash is unchanged and a cached template was parsed from its key. Non-trivial: histories with >=2 operations / programs with a map or side effect.",
 		Bound: func(th bool) string {
 			if th {
 				return "histories of length <=4 over the full 56-operation alphabet; all pairs of map-order deviations"
@@ -634,6 +635,94 @@ func c13Run(t *engine.T, shard string) {
 				})
 			}
 		}
+	case "ctors":
+		// whichever way the context of an execution was built, names it binds at its top level stay in that context
+		setters := []string{`<% let title9 = "T" %>`, `<% contentFor("leak9") { %>x<% } %>`, `<% let f9 = fn() { return 1 } %>`, `<% let len = "mine" %>`}
+		probes := []string{`<%= title9 %>`, `<%= contentOf("leak9") %>`, `<%= f9() %>`, `<%= len("ab") %>`}
+		mks := map[string]func() *plush.Context{
+			"NewContext":            func() *plush.Context { return plush.NewContext() },
+			"NewContextWith(nil)":   func() *plush.Context { return plush.NewContextWith(nil) },
+			"NewContextWith({})":    func() *plush.Context { return plush.NewContextWith(map[string]interface{}{}) },
+			"NewContextWithOuter":   func() *plush.Context { return plush.NewContextWithOuter(nil, plush.NewContext()) },
+			"NewContextWithContext": func() *plush.Context { return plush.NewContextWithContext(context.Background()) },
+			"New()":                 func() *plush.Context { return plush.NewContext().New().(*plush.Context) },
+		}
+		var names []string
+		for n := range mks {
+			names = append(names, n)
+		}
+		sort.Strings(names)
+		for _, mn := range names {
+			for si, set := range setters {
+				mn, si, set := mn, si, set
+				t.Case(fmt.Sprintf("ctors %s %q", mn, set), true, func() (string, *engine.Fail) {
+					plush.CacheEnabled = false
+					var before []string
+					for _, p := range probes {
+						out, err := plush.Render(p, plush.NewContext())
+						before = append(before, out+"/"+errStr(err))
+					}
+					if _, err := plush.Render(set, mks[mn]()); err != nil {
+						return "", engine.Failf("harness", "%v", err)
+					}
+					if _, err := plush.BuffaloRenderer(set, nil, nil); err != nil {
+						return "", engine.Failf("harness", "%v", err)
+					}
+					for _, mk2 := range names {
+						for pi, p := range probes {
+							out, err := plush.Render(p, mks[mk2]())
+							if got := out + "/" + errStr(err); got != before[pi] {
+								return "", c13Loose("nondeterministic", "after %q ran in a context from %s, %q in a fresh context from %s gives %q, before %q", set, mn, p, mk2, got, before[pi])
+							}
+						}
+					}
+					_ = si
+					return "independent", nil
+				})
+			}
+		}
+		// pure helpers are functions of their arguments: every history of <=4 calls over 2 helpers x 4 words
+		words := []string{"person", "mouse", "people", "mice"}
+		type call struct{ h, w string }
+		var alphabet []call
+		for _, h := range []string{"pluralize", "singularize"} {
+			for _, w := range words {
+				alphabet = append(alphabet, call{h, w})
+			}
+		}
+		ref := map[call]string{}
+		one := func(c call) string {
+			out, err := plush.Render(`<%= `+c.h+`("`+c.w+`") %>`, plush.NewContext())
+			return out + "/" + errStr(err)
+		}
+		var rec func(h []call)
+		rec = func(h []call) {
+			if len(h) > 0 {
+				hh := append([]call{}, h...)
+				t.Case(fmt.Sprintf("ctors helper history %v", hh), len(hh) > 1, func() (string, *engine.Fail) {
+					var first map[call]string = map[call]string{}
+					for _, c := range hh {
+						got := one(c)
+						if w, ok := first[c]; ok && w != got {
+							return "", c13Loose("nondeterministic", "history %v: %v gives %q, earlier in the same history %q", hh, c, got, w)
+						}
+						first[c] = got
+						if w, ok := ref[c]; ok && w != got {
+							return "", c13Loose("nondeterministic", "history %v: %v gives %q, in another history %q", hh, c, got, w)
+						}
+						ref[c] = got
+					}
+					return "deterministic", nil
+				})
+			}
+			if len(h) == 4 {
+				return
+			}
+			for _, c := range alphabet {
+				rec(append(h[:len(h):len(h)], c))
+			}
+		}
+		rec(nil)
 	case "env":
 		for _, src := range c13Programs() {
 			src := src
